@@ -15,5 +15,5 @@ CONSTANTS
   F6Quirk = FALSE
   F7Quirk = FALSE
   PoorShare = 0
-INVARIANTS ErrAgree ConformCounters ConformNet ConformChains ConformLogs ReloadOpens ConformShadowCounters ConformShadowChains ConformShadowLogs ConformFwd ConformDack AtMostOneTx ConformStatic ExactConservation ConformTxLayer OraclesHold NeverBroadcastRevoked Conservation NextPointRule ReestPointRule ConformMods ConformShadowMods
+INVARIANTS BadRevRefused ErrAgree ConformCounters ConformNet ConformChains ConformLogs ReloadOpens ConformShadowCounters ConformShadowChains ConformShadowLogs ConformFwd ConformDack AtMostOneTx ConformStatic ExactConservation ConformTxLayer OraclesHold NeverBroadcastRevoked Conservation NextPointRule ReestPointRule ConformMods ConformShadowMods
 CHECK_DEADLOCK TRUE
